@@ -67,5 +67,6 @@ func (e Enum) MarshalJSON() ([]byte, error) {
 	}
 	b.WriteByte(']')
 
-	return b.Bytes(), nil
+	// The buffer goes back to the pool (and to other goroutines): return a copy.
+	return append([]byte(nil), b.Bytes()...), nil
 }
